@@ -136,31 +136,48 @@ def graph_tokens(graph) -> str:
 
 def lean_term(graph) -> str:
     """Lean source of the static graph (EoVerif/Generated/ImportGraph.lean)"""
-    def q(s):
-        return '"' + s.replace("\\", "\\\\").replace('"', '\\"') + '"'
-    lines = ["import EoVerif.Model.Imports", "/-! GENERATED by harness/importgraph.py from <repo>/src/eolib — do not edit. -/",
+    def q(x):
+        return '"' + x.replace("\\", "\\\\").replace('"', '\\"') + '"'
+
+    def mn(x):
+        return "[" + ", ".join(q(seg) for seg in x.split(".")) + "]"
+    lines = ["import EoVerif.Model.Imports", "/-! GENERATED by harness/importgraph.py from <repo>/src/eolib — do not edit.",
+             "    Regenerated on every run of the C20 check; the theorems of Props/C20.lean are re-checked against it. -/",
              "namespace EoVerif.Imp", "", "def staticGraph : Graph := ["]
     mods = []
     for mod in sorted(graph):
         _, stmts = graph[mod]
         ss = []
-        for s in stmts:
-            if s[0] == "star":
-                ss.append(f".star {q(s[1])}")
-            elif s[0] == "from":
-                ss.append(f".fromImp {q(s[1])} [" + ", ".join(f"({q(a)}, {q(b)})" for a, b in s[2]) + "]")
-            elif s[0] == "import":
-                ss.append(f".imp {q(s[1])} " + ("none" if s[2] is None else f"(some {q(s[2])})"))
-            elif s[0] == "define":
-                ss.append(f".define {q(s[1])}")
-            elif s[0] == "all":
-                ss.append(".setAll [" + ", ".join(q(x) for x in s[1]) + "]")
-            elif s[0] == "rebind":
-                ss.append(f".rebind {q(s[1])} {q(s[2])}")
-        mods.append(f"  ⟨{q(mod)}, [" + ", ".join(ss) + "]⟩")
+        for st in stmts:
+            if st[0] == "star":
+                ss.append(f".star {mn(st[1])}")
+            elif st[0] == "from":
+                ss.append(f".fromImp {mn(st[1])} [" + ", ".join(f"({q(a)}, {q(b)})" for a, b in st[2]) + "]")
+            elif st[0] == "import":
+                ss.append(f".imp {mn(st[1])} " + ("none" if st[2] is None else f"(some {q(st[2])})"))
+            elif st[0] == "define":
+                ss.append(f".define {q(st[1])}")
+            elif st[0] == "all":
+                ss.append(".setAll [" + ", ".join(q(x) for x in st[1]) + "]")
+            elif st[0] == "rebind":
+                ss.append(f".rebind {q(st[1])} {mn(st[2])}")
+        mods.append(f"  ⟨{mn(mod)}, [" + ", ".join(ss) + "]⟩")
     lines.append(",\n".join(mods))
     lines += ["]", "", "end EoVerif.Imp", ""]
     return "\n".join(lines)
+
+
+def regenerate(repo: str, lean_dir: str) -> tuple[bool, dict]:
+    """(re)write EoVerif/Generated/ImportGraph.lean from <repo>/src; returns (changed, opaque report)"""
+    g, rep = extract_tree(os.path.join(repo, "src"))
+    text = lean_term(g)
+    path = os.path.join(lean_dir, "EoVerif", "Generated", "ImportGraph.lean")
+    os.makedirs(os.path.dirname(path), exist_ok=True)
+    old = open(path, encoding="utf-8").read() if os.path.exists(path) else None
+    if old != text:
+        with open(path, "w", encoding="utf-8") as f:
+            f.write(text)
+    return old != text, rep
 
 
 if __name__ == "__main__":
